@@ -108,6 +108,7 @@ def run(prop="C14", tier="quick"):
                                  "the fat dispatcher installs kernels from mpn/%s on a %s CPU, but configure.ac does not select that directory "
                                  "for %s (path %s): those kernels may use instructions the CPU lacks" % (d, cpu, cpu, " ".join(sorted(paths[cpu])))))
     init_protocol(prop, res, cfuncs, [t.upper() for t in cthr], fc)
+    trampoline(prop, res, read("mpn/x86_64/fat/fat_entry.asm"))
     res["samples"].append(dict(rule="R-FATTAB", cpus=len(setups), example=dict(cpu=setups[0][0], chain=setups[0][1].strip())))
     res["samples"].append(dict(rule="R-FATTAB", fields=names[:6] + ["..."], n=len(names), thresholds=thr_fields))
     res["stats"] = dict(res["stats"])
@@ -191,3 +192,44 @@ def init_protocol(prop, res, fat_functions, fat_thresholds, fat_c_text):
                              "thread that sees the flag uses thresholds / function pointers that are not installed yet (CPUVEC_THRESHOLD trusts "
                              "the flag)" % (fl, late[0][2], late[0][3])))
     res["samples"].append(dict(rule="R-FATTAB.init", stores=len(stores), flag_lines=[s_[3] for s_ in flag]))
+
+
+def trampoline(prop, res, text):
+    """The first call of each dispatched routine lands in FAT_INIT, which calls __gmpn_cpuvec_init and then jumps to the routine that was
+    installed - with the ORIGINAL arguments.  So the trampoline has to save all six integer argument registers (mpn_preinv_divrem_1,
+    mpn_add_err1_n, ... take six) around the call and restore them in mirror order.  m4 text of a file the pinned build never
+    assembles; checked on the text of the FAT_INIT definition."""
+    F = res["findings"]
+    src = os.path.join(REPO, "mpn/x86_64/fat/fat_entry.asm")
+    m = re.search(r"define\(FAT_INIT,(.*?)\ndnl\s+FAT_INIT for each", text, re.S)
+    if not m:
+        raise AnalysisBroken("R-FATTAB: the FAT_INIT definition was not found in fat_entry.asm")
+    body = m.group(1)
+    line0 = text[:m.start(1)].count("\n") + 1
+    pushes = re.findall(r"^\s*pushq?\s+%(\w+)", body, re.M)
+    calls = list(re.finditer(r"^\s*call\s+.*__gmpn_cpuvec_init.*$", body, re.M))
+    if not calls or len(pushes) < 4:
+        raise AnalysisBroken("R-FATTAB: FAT_INIT has %d pushes and %d calls of __gmpn_cpuvec_init: anchors moved" % (len(pushes), len(calls)))
+    need = ["rdi", "rsi", "rdx", "rcx", "r8", "r9"]
+    res["stats"]["comparisons"] += len(need)
+    for r_ in need:
+        if r_ not in pushes:
+            F.append(Finding(prop, "R-FATTAB", src, line0, "FAT_INIT", "trampoline-arg-not-saved:%s" % r_,
+                             "FAT_INIT does not save %%%s around the call of __gmpn_cpuvec_init: the init routine may clobber this caller-saved "
+                             "argument register, and the dispatched routine then starts with a garbage argument on the first call" % r_))
+    for i, c in enumerate(calls):
+        end = calls[i + 1].start() if i + 1 < len(calls) else len(body)
+        seg = body[c.end():end]
+        pops = []
+        for ln in seg.split("\n"):
+            mm = re.match(r"^\s*popq?\s+%(\w+)", ln)
+            if mm:
+                pops.append(mm.group(1))
+            elif pops and ln.strip() and not ln.strip().startswith(("C ", "dnl", "#")):
+                break
+        res["stats"]["comparisons"] += 1
+        if pops != list(reversed(pushes)):
+            F.append(Finding(prop, "R-FATTAB", src, line0 + body[:c.start()].count("\n"), "FAT_INIT", "trampoline-restore-order:%d" % i,
+                             "after call %d of __gmpn_cpuvec_init FAT_INIT pops %s, which is not the mirror image of its pushes %s: some register "
+                             "comes back with another register's value" % (i + 1, pops, pushes)))
+    res["samples"].append(dict(rule="R-FATTAB.trampoline", pushes=pushes, calls=len(calls)))
